@@ -216,6 +216,27 @@ def conj_rule(ck, units):
                   f.where(), not dets, ('in %s: ' % f.full[:100] if dets else '') + '; '.join(dets), trivial=(nconj == 0))
 
 
+def rule_zero(ck, units, floor=18):
+    """the clause of C07 other properties rely on: a zero output coefficient makes a primitive overwrite its output without reading it"""
+    ck.rule('no-read-under-zero', 'in X_impl<...>::apply every read of the output is dominated by !is_zero(own coefficient) or follows a kill of the output; '
+                                  'pure outputs (residual, copy, clear) are never read', floor)
+    done = set()
+    for u in units.values():
+        for f in u.funcs:
+            prim = None
+            if f.cls and f.cls.startswith('amgcl::backend::') and f.cls.endswith('_impl') and f.q.endswith('::apply'):
+                p_ = f.cls[len('amgcl::backend::'):-len('_impl')]
+                if p_ in PRIMS:
+                    prim = p_
+            elif f.q == 'amgcl::backend::lin_comb':
+                prim = 'lin_comb'
+            if prim is None or f.full in done:
+                continue
+            done.add(f.full)
+            analyse(ck, f, prim, 'no-read-under-zero')
+    finalize_keys(ck)
+
+
 def rule_extent(ck, units):
     """element-wise loops over the output vector of a primitive run over the whole vector: the bound of a loop whose body writes out[i]
     (i the induction variable itself) is the number of rows of the matrix argument (rows(A) / A.nrows / A.rows()) or the size of a
